@@ -309,11 +309,44 @@ fn run_handles(sc: &J, t: &mut Tracer) {
 		x => panic!("unknown scene {x}"),
 	}
 	t.reset(json!({"mode": "handles", "scene": scene, "init": init, "ring": sc["ring"].as_u64().unwrap_or(0), "src": sc["src"]}));
+	// scene T options: `stop_fade` - the sound is told to stop with a very long fade just before the first seek is written (it is
+	// Stopping, still advancing, for the rest of the session); a seek to or beyond the end (x >= len) ends the judged part of the
+	// session: the driver renders until the sound reports Stopped (at most ring / NF + 12 callbacks) and records `fin`
+	let mut stop_fade_pending = sc["stop_fade"].as_bool().unwrap_or(false);
+	let t_len = sc["len"].as_u64().unwrap_or(4000) as f64;
+	let mut end_sought = false;
 	for step in sc["steps"].as_array().unwrap() {
+		if end_sought {
+			break;
+		}
 		match step["act"].as_str().unwrap() {
 			"W" => {
 				let key = step["key"].as_str().unwrap();
 				let v = &step["v"];
+				if key == "st.seek" && stop_fade_pending {
+					stop_fade_pending = false;
+					s.s2.as_mut().unwrap().stop(Tween { start_time: StartTime::Immediate, duration: Duration::from_secs(3600), easing: Easing::Linear });
+					t.ev(json!({"a": "note", "what": "stop with a one-hour fade"}));
+				}
+				if key == "st.seek" && scene == "T" && v["x"].as_f64().unwrap() >= t_len {
+					s.s2.as_mut().unwrap().seek_to(v["x"].as_f64().unwrap() / RATE as f64);
+					let ring = sc["ring"].as_u64().unwrap_or(48) as usize;
+					let mut n = 0;
+					let mut state = "Playing";
+					while n < ring / NF + 12 {
+						let _ = s.sim.callback(NF);
+						n += 1;
+						// (the decoder is given the time it needs: this is about what it does, not how fast)
+						std::thread::sleep(Duration::from_millis(3));
+						state = guarded(|| state_name(s.s2.as_ref().unwrap().state())).unwrap_or("panic");
+						if state == "Stopped" {
+							break;
+						}
+					}
+					t.ev(json!({"a": "fin", "x": v["x"], "callbacks": n, "state": state}));
+					end_sought = true;
+					continue;
+				}
 				let r = guarded(|| match key {
 					"main.vol" => s.sim.manager.main_track().set_volume(v.as_f64().unwrap() as f32, tw(0)),
 					"s1.vol" => s.s1.as_mut().unwrap().set_volume(v.as_f64().unwrap() as f32, tw(0)),
